@@ -160,6 +160,7 @@ Section Delimited.
      the count's parse action installs `expr * n` as the body of the Forward that follows;  state = that body *)
   Variable count : str -> option (nat * str).
   Variable item : str -> option (A * str).
+  Variable skipw : str -> str.        (* the white space that Empty() skips before matching *)
 
   Fixpoint items_exact (n : nat) (s : str) : option (list A * str) :=
     match n with
@@ -170,12 +171,19 @@ Section Delimited.
              end
     end.
 
+  (* `(expr * n) if n else Empty()` *)
+  Definition ca_body (n : nat) (s : str) : option (list A * str) :=
+    match n with
+    | 0 => Some ([], skipw s)
+    | S _ => items_exact n s
+    end.
+
   (* (tokens, rest, the body the Forward is left with) ; a Forward without body cannot be parsed *)
   Definition counted_array (body0 : option nat) (s : str) : option (list A * str) * option nat :=
     match count s with
     | None => (None, body0)
     | Some (n, s1) =>
-      let body := Some (ca_items n) in                    (* array_expr <<= expr * n *)
-      (match body with Some k => items_exact k s1 | None => None end, body)
+      let body := Some (ca_items n) in                    (* array_expr <<= ... *)
+      (match body with Some k => ca_body k s1 | None => None end, body)
     end.
 End Delimited.
